@@ -312,7 +312,10 @@ mutual
     | .untilLoop c b => closedList c && closedList b
     | .ifCmd c b es _ e => closedList c && closedList b && closedElifs es && closedList e
     | .forLoop n vs b => tokWordModelled n && (vs.getD []).all tokWordModelled && closedList b
-    | .caseCmd _ _ => false
+    | .caseCmd s items => tokWordModelled s && closedCaseItems items
+  def closedCaseItems : List CaseItem → Bool
+    | [] => true
+    | .mk ps b _ :: rest => !ps.isEmpty && ps.all tokWordModelled && closedList b && closedCaseItems rest
   def closedElifs : List ElifThen → Bool
     | [] => true
     | .mk c b :: rest => closedList c && closedList b && closedElifs rest
